@@ -119,6 +119,8 @@ class FuncAnalysis:
         for pre in ("Optional[",):
             if t.startswith(pre) and t.endswith("]"):
                 t = t[len(pre):-1]
+        if t in IMM_TUPLE_ANNOT:
+            return True        # coordinate vectors: whatever the container is (tuple or list), what it holds are numbers
         for pre in ("List[", "Sequence[", "Tuple[", "Set[", "FrozenSet[", "Dict[", "Iterable[", "Collection[", "Mapping[", "list[", "tuple[", "set[", "dict["):
             if t.startswith(pre) and t.endswith("]"):
                 inner = t[len(pre):-1]
@@ -475,6 +477,17 @@ class FuncAnalysis:
             return set()
         if cs.kind == "builtin":
             nm = cs.name
+            if nm == "map" and len(n.args) >= 2:
+                # map(f, xs, ...): the elements of the result are what f returns for the elements of xs
+                bd = self.model.resolve_expr_binding(n.args[0], self.fi.module) if isinstance(n.args[0], (ast.Name, ast.Attribute)) else None
+                callee = bd.target if bd is not None and bd.kind == "func" else None
+                sm = self.eff.summaries.get(callee) if callee else None
+                if sm is not None:
+                    bound = {i: self.deref(a, 1) for i, a in enumerate(args[1:])}
+                    r = self.apply_summary(sm, bound, n, callee)
+                    ao = self.alloc(n, "list", "map")
+                    self.gain(ao, r)
+                    return {ao}
             if nm in FRESH_BUILTINS:
                 ao = self.alloc(n, "tuple" if nm in ("tuple", "frozenset") else ("dict" if nm == "dict" else "list"), nm)
                 for a in args:
